@@ -240,6 +240,8 @@ func cmdSessions(args []string) {
 	race := fs.Bool("race", true, "build the context driver with -race")
 	caseFile := fs.String("cases", "", "cases JSON (replay)")
 	nprobe := fs.Int("nprobe", 2, "counter grammars with abandoning actions")
+	nsoak := fs.Int("nsoak", 2, "cases that get a soak history")
+	soaklen := fs.Int("soaklen", 12000, "length of the soak history")
 	fs.Parse(args)
 	os.MkdirAll(*out, 0755)
 	var cases []*Case
@@ -250,6 +252,11 @@ func cmdSessions(args []string) {
 		r0 := rand.New(rand.NewSource(p.seed*7919 + 13))
 		for _, c := range cases {
 			Valuate(c, r0, true)
+			if c.NestRule == 0 && r0.Intn(2) == 0 { // nesting matters here: force it on half of the cases
+				for try := 0; try < 8 && c.NestRule == 0; try++ {
+					Valuate(c, r0, true)
+				}
+			}
 			// some actions abandon the parse after assigning $$; some rules rely on the zero default of $$
 			for i := range c.Rules {
 				if c.Rules[i].Act.Kind == "int" && r0.Intn(3) == 0 {
@@ -383,6 +390,31 @@ func cmdSessions(args []string) {
 							want[i] = ref[k]
 						}
 						add(sessObs{Case: c.ID, Kind: m.kind, Variant: v.Name, Detail: fmt.Sprint(h), Got: got, Want: want})
+					}
+				}
+				// soak: a very long history on one parser object (one re-initialised context with -o, the global parser,
+				// the shared TypeScript module): whatever accumulates over thousands of init/parse rounds must not
+				// change the result of the next parse
+				if ci < *nsoak {
+					var h []int
+					for i := 0; i < *soaklen; i++ {
+						h = append(h, i%len(inputs))
+					}
+					env := []string(nil)
+					if v.Object {
+						env = []string{"VH_REINIT=1"}
+					}
+					got := runHist(h, env, v.Lang == "ts")
+					if len(got) == len(h) {
+						tailN := 2 * len(inputs)
+						var g2, w2 []string
+						for i := len(h) - tailN; i < len(h); i++ {
+							g2 = append(g2, got[i])
+							w2 = append(w2, ref[h[i]])
+						}
+						add(sessObs{Case: c.ID, Kind: "soak", Variant: v.Name, Detail: fmt.Sprintf("last %d of %d parses", tailN, len(h)), Got: g2, Want: w2})
+					} else {
+						add(sessObs{Case: c.ID, Kind: "soak", Variant: v.Name, Detail: fmt.Sprintf("driver produced %d of %d runs", len(got), len(h)), Got: []string{"incomplete"}, Want: []string{"complete"}})
 					}
 				}
 				os.Remove(filepath.Join(rec.Dir, "p"))
